@@ -378,7 +378,10 @@ pub fn case_sched(bytes: &[u8], sched_bytes: &[u8], ctx: &mut Ctx) -> Result<(),
         })
         .collect();
     let nsnap = 1 + src.below(3);
-    ctx.case(&(&recorders, nsnap, sched_bytes));
+    // a third of the cases start next to a block boundary of the histogram's bucket (64 slots per block), so
+    // that the racing records hand over to a new block while a snapshot clears
+    let prefill: u32 = [0, 0, 0, 0, 61, 62, 63, 64][src.below(8)];
+    ctx.case(&(&recorders, nsnap, prefill, sched_bytes));
     let rec = DebuggingRecorder::new();
     let snap = rec.snapshotter();
     let key = Key::from_name("h");
@@ -390,6 +393,12 @@ pub fn case_sched(bytes: &[u8], sched_bytes: &[u8], ctx: &mut Ctx) -> Result<(),
         SnapEnd(usize, Vec<u32>),
     }
     let events: Mutex<Vec<Ev>> = Mutex::new(vec![]);
+    for i in 0..prefill {
+        let t = 1000 + i;
+        events.lock().unwrap().push(Ev::RecStart(t));
+        rec.register_histogram(&key, &SMETA).record(t as f64);
+        events.lock().unwrap().push(Ev::RecEnd(t));
+    }
     let values_of = |v: Vec<(metrics_util::CompositeKey, Option<Unit>, Option<metrics::SharedString>, DebugValue)>| -> Vec<u32> {
         v.into_iter().filter_map(|(_, _, _, d)| if let DebugValue::Histogram(vs) = d { Some(vs.into_iter().map(|x| x.0 as u32).collect::<Vec<_>>()) } else { None }).flatten().collect()
     };
@@ -460,13 +469,16 @@ pub fn case_sched(bytes: &[u8], sched_bytes: &[u8], ctx: &mut Ctx) -> Result<(),
             }
         }
     }
-    let all: Vec<u32> = recorders.iter().flatten().copied().collect();
+    let all: Vec<u32> = recorders.iter().flatten().copied().chain((0..prefill).map(|i| 1000 + i)).collect();
     for t in &all {
         ensure!(seen_in.contains_key(t), "histogram-values-not-exactly-once", "value {} was recorded but no snapshot (not even the one at quiescence) holds it; trace {:?}", t, out.trace);
     }
     ensure!(seen_in.len() == all.len(), "histogram-value-never-recorded", "snapshots hold {:?}, recorded were {:?}", seen_in.keys().collect::<Vec<_>>(), all);
     if overlap {
         ctx.nontrivial("snapshot-overlaps-record");
+        if prefill > 0 {
+            ctx.nontrivial("snapshot-overlaps-record-next-to-a-block-boundary");
+        }
     }
     Ok(())
 }
